@@ -638,7 +638,7 @@ func CellString(s string) *string {
 	return &s
 }
 func rowLess(ri, rj Row, c SortConfig) bool {
-	if c == nil {
+	if len(c) == 0 {
 		return false
 	}
 	cfg, last := c[0], len(c) == 1
